@@ -365,7 +365,7 @@ impl Engine for C13 {
         tier.pick(400, 8000)
     }
     fn strategy(&self, _tier: Tier) -> BoxedStrategy<Case> {
-        let wm = WriteMix { bad_decls: false, meta: true, by_hash: true };
+        let wm = WriteMix { bad_decls: false, meta: true, by_hash: true, rich_matching: false, interfere: false };
         let nv = victims().len();
         (
             gen::blob(SizeMix::Normal),
